@@ -443,6 +443,14 @@ func (u *clientUpdater) updateService(ctx context.Context, service ServiceDefini
 		}
 	}
 	for _, presentation := range presentations {
+		if presentation.ID == nil {
+			// The Discovery Service is a remote (untrusted) party: it must not be able to crash the node with a presentation without ID (jti).
+			// Servers refuse to register those, so a proper server never lists one.
+			log.Logger().
+				WithField("discoveryService", service.ID).
+				Warn("Discovery Service returned a Verifiable Presentation without ID, skipping it")
+			continue
+		}
 		// Check if the presentation already exists
 		credentialSubjectID, err := credential.PresentationSigner(presentation)
 		if err != nil {
